@@ -21,6 +21,11 @@ Step(e) ==
                        IF ~e.same THEN "the served tree changed on a read-only server"
                        ELSE IF Mutating(k) THEN "a modifying request was not answered with permission denied"
                        ELSE "a purely reading request is answered differently than on a writable server")
+    [] e.ev = "ROPipe" ->
+         \* modifying requests pipelined to a slow reader: each answered with permission denied under its own id, in order
+         /\ c09' = Set(c09, ~e.ok \/ ~e.same, IF ~e.same THEN "the served tree changed on a read-only server"
+                                               ELSE "pipelined modifying requests were not each answered with permission denied under their own id")
+         /\ UNCHANGED bad
     [] e.ev \in {"Req", "Resp", "Setup", "ServeRet", "ConnClose", "PmFini", "Note"} -> UNCHANGED <<bad, c09>>
     [] OTHER -> bad' = "unknown event" /\ UNCHANGED c09
 
